@@ -247,7 +247,12 @@ pub fn mutate_doc(rng: &mut Rng, doc: &Value, other_names: &[String], cells: &mu
         }
         let Some(o) = v.as_object_mut() else { break };
         let key = o.keys().next().cloned();
-        match rng.below(14) {
+        match rng.below(15) {
+            14 => {
+                // names the generator reserves for itself must not be messages
+                v = rng.pick(&[json!({"__phantom": null}), json!({"_phantom": null}), json!({"__phantom": {}}), json!({"__phantom": []}), json!({"_Phantom": null})]).clone();
+                cells.push("phantom");
+            }
             0 => {
                 // unknown top-level name
                 if let Some(k) = key {
